@@ -16,6 +16,9 @@ ALLOC = "function churn(n: number) { const junk: any[] = []; for (let i = 0; i <
 
 # natives that allocate while holding inputs, callbacks that allocate, getters, proxies, generators, promises …
 TEMPLATES = [
+    # combinators over DERIVED promises nobody else holds: the early results live only in the combinator's own state (found on the unchanged tree; fixed)
+    "let r1: any, r2: any, r3: any; const p1 = new Promise(r => { r1 = r; }); const p2 = new Promise(r => { r2 = r; }); const p3 = new Promise(r => { r3 = r; }); const out: string[] = []; Promise.all([p1.then(v => ({s: [v]})), p2.then(v => ({s: [v, v]})), p3]).then(rs => out.push(JSON.stringify(rs))); r1(1); churn(60); r2(2); churn(60); r3({t: 3}); churn(20); out.join('')",
+    "let r1: any, r2: any, j3: any; const p1 = new Promise(r => { r1 = r; }); const p2 = new Promise(r => { r2 = r; }); const p3 = new Promise((_, j) => { j3 = j; }); const out: string[] = []; Promise.allSettled([p1.then(v => ({s: v})), p2, p3]).then(rs => out.push(JSON.stringify(rs))); r1('a'); churn(80); j3({why: ['x']}); churn(80); r2({b: 2}); churn(20); Promise.any([new Promise((_, j) => { churn(30); j({e: 1}); }), p2.then(v => ({w: v}))]).then(v => out.push(JSON.stringify(v))); churn(40); out.join('|')",
     # objects reachable only through a bound function's arguments, through a Map entry keyed by an object, through a started generator's parameters, through a yield* delegate
     "function mk() { const f = function (this: any, a: any, b: any, c: any) { return this.t + a.v[0] + b.w + c; }; return f.bind({t: 'T'}, {v: [7]}, {w: 'W'}); } const bf = mk(); churn(120); const r1 = bf('x'); churn(50); r1 + bf('y')",
     "const m = new Map<any, any>(); (() => { for (let i = 0; i < 5; i++) m.set({id: i}, {val: [i, i], tag: 't' + i}); })(); churn(150); let acc = ''; for (const [k, v] of m) { churn(5); acc += k.id + v.tag + v.val.length; } const ws = new Set<any>(); (() => { for (let i = 0; i < 4; i++) ws.add({n: [i]}); })(); churn(100); for (const e of ws) acc += e.n[0]; acc",
